@@ -143,10 +143,11 @@ def run(chk):
         "independent format specification coq/Emu/LoaderSpec.v (proved equivalent to acceptance by the model) and its Python twin lib/checks/loader_common.py:validate_obs used to classify corrupted traces",
         "extraction (ExtrOcamlBasic only) + OCaml 4.13 + oracle/loader_drv.ml",
         "parson is an oracle (metadata theorems are about an abstract record of look-up results); for the stream-layer theorems the handlers are a parameter; the classes 'unknown event' and 'wrong payload size' are theorems about the emulator-core model's dispatch (tables dumped from the source by translate/units/tables.py + the hand-written switches of Emu/DecodeDefs.v, validated against ovniemu by C18's per-code probes and this campaign)",
+        "translate/units/dispatch.py + _stagec.py: the dispatch code of the eight models (model_<m>_event, process_ev, simple, kernel context_switch, ovni pre_cpu / pre_flush) is rendered into coq/Gen/Dispatch_gen.v on every run and proved to refuse what the decoder calls an unknown event (C12_unknown_event_from_source); the table look-up is the row dumped by unit tables",
     ]
     chk.assumptions = ["stream->clock_offset = 0", "a stream file is smaller than 2^63 bytes",
                        "theorems are about the repaired stream_step and emu_ev (patches/fix-c19-stream-bounds.diff, patches/fix-c12-is-jumbo.diff)"]
-    broken = common.translate(["loader", "loader_step", "tables", "footprint", "stepper", "version", "meta"])
+    broken = common.translate(["loader", "loader_step", "tables", "footprint", "stepper", "version", "meta", "guards", "chan", "sys", "taskev", "dispatch"])
     fixed_tree = not any("unit=loader_step" in b for b in broken)
     if broken:
         chk.proof_broken = {"kind": "translator", "messages": broken}
